@@ -460,60 +460,66 @@ def _staterror(ctx, rid, repo):
 
 
 def _staterror_widths(ctx, rid, repo):
-    """Interpret staterror_builder.finalize on a concrete-shape configuration (3 global bins in two channels,
-    samples A, B carry modifier m on bins 0-1, sample C does not; A has a ZERO nominal in bin 1; modifier z acts
-    on bin 2 of A with zero uncertainty) and compare the widths it requests with delta_b of the template."""
+    """staterror_builder INTERPRETED end to end (append for every (channel, sample, modifier) cell, then finalize) on
+    two channels (c1: 2 bins, c2: 1 bin) and four samples: m acts on c1 of A, B and D (A has a ZERO nominal in bin 1,
+    D lists all-zero uncertainties), z acts on c2 of A only and y on c2 of D only (zero uncertainty) while B -- which carries m -- is present
+    in c2 without z; C carries nothing.  The widths requested must be delta_b of the template."""
+    from ..alg import AutoRegion, RaisedInFragment
+    from ..objmodel import World
     rel = "src/pyhf/modifiers/staterror.py"
-    fin = repo.method(rel, "staterror_builder", "finalize")
+    bcls = repo.cls(rel, "staterror_builder")
+    fin = bcls.methods["finalize"]
     at = Poly.atom
-    T, F_ = True, False
     zero = Poly()
-
-    def cell(mask, unc, nom):
-        return {"data": {"mask": [list(m) for m in mask], "uncrt": [list(u) for u in unc], "nom_data": [list(n) for n in nom]}}
-
-    bd = {
-        "staterror/m": {
-            "A": cell([[T, T], [F_]], [[at("uA0"), at("uA1")], [zero]], [[at("nA0"), zero], [at("nA2")]]),
-            "B": cell([[T, T], [F_]], [[at("uB0"), at("uB1")], [zero]], [[at("nB0"), at("nB1")], [at("nB2")]]),
-            "C": cell([[F_, F_], [F_]], [[zero, zero], [zero]], [[at("nC0"), at("nC1")], [at("nC2")]]),
-        },
-        "staterror/z": {
-            "A": cell([[F_, F_], [T]], [[zero, zero], [zero]], [[at("nA0"), zero], [at("nA2")]]),
-            "B": cell([[F_, F_], [F_]], [[zero, zero], [zero]], [[at("nB0"), at("nB1")], [at("nB2")]]),
-            "C": cell([[F_, F_], [F_]], [[zero, zero], [zero]], [[at("nC0"), at("nC1")], [at("nC2")]]),
-        },
-    }
-    names = ["uA0", "uA1", "uB0", "uB1", "nA0", "nA2", "nB0", "nB1", "nB2", "nC0", "nC1", "nC2"]
-    region = {n: Fraction(p) for n, p in zip(names, (2, 3, 5, 7, 11, 13, 17, 19, 23, 29, 31, 37))}
+    nbins = {"c1": 2, "c2": 1}
+    nominal = {("c1", "A"): [at("nA0"), zero], ("c1", "B"): [at("nB0"), at("nB1")], ("c1", "C"): [at("nC0"), at("nC1")], ("c1", "D"): [at("nD0"), at("nD1")],
+               ("c2", "A"): [at("nA2")], ("c2", "B"): [at("nB2")], ("c2", "C"): [at("nC2")], ("c2", "D"): [at("nD2")]}
+    declared = {("c1", "A", "m"): [at("uA0"), at("uA1")], ("c1", "B", "m"): [at("uB0"), at("uB1")], ("c1", "D", "m"): [zero, zero], ("c2", "A", "z"): [at("uA2")], ("c2", "D", "y"): [zero]}
+    region = AutoRegion()
     got = {}
-    ext = listnp.externals()
+    ext = listnp.externals(interp_truth=lambda v: to_poly(v).evalf(region) != 0)
     ext["required_parset"] = lambda a, k: {"sigmas": a[0], "fixed": a[1]}
-    site = f"{rel}::staterror_builder.finalize [interpreted: 2 modifiers x 3 samples x 3 bins]"
+    site = f"{rel}::staterror_builder append+finalize [interpreted: 2 modifiers x 4 samples x 2 channels]"
     try:
-        it = Interp({"pyhf": Obj("pyhf", {"default_backend": Obj("default_backend")})}, {"builder_data": bd, "required_parsets": got}, region, cls_name="staterror_builder", externals=ext)
-        it.run(A.strip_docstring(fin.node.body))
-        s0 = at("nA0") + at("nB0")
-        want_m = [fn("sqrt", (at("uA0") / s0) ** 2 + (at("uB0") / s0) ** 2), fn("sqrt", (at("uA1") / at("nB1")) ** 2 + (at("uB1") / at("nB1")) ** 2)]
+        w = World(ext, region=region, module_env={"pyhf": Obj("pyhf", {"default_backend": Obj("default_backend")}), "exceptions": Obj("exceptions")})
+        w.add_class(bcls)
+        cfg = Obj("config", {"channel_nbins": {k_: Poly.const(v_) for k_, v_ in nbins.items()}, "channels": ["c1", "c2"], "samples": ["A", "B", "C", "D"]})
+        inst = w.new(bcls, [cfg], {})
+        for ch in ("c1", "c2"):
+            for sm in ("A", "B", "C", "D"):
+                samp = {"name": sm, "data": list(nominal[(ch, sm)])}
+                for mod in ("m", "y", "z"):
+                    d_ = declared.get((ch, sm, mod))
+                    thismod = None if d_ is None else {"name": mod, "type": "staterror", "data": list(d_)}
+                    w.call_method(inst, "append", [f"staterror/{mod}", ch, sm, thismod, samp])
+        w.call_method(inst, "finalize", [])
+        got = inst.attrs.get("required_parsets", {})
+        s0 = at("nA0") + at("nB0") + at("nD0")
+        s1 = at("nB1") + at("nD1")
+        want_m = [fn("sqrt", (at("uA0") / s0) ** 2 + (at("uB0") / s0) ** 2), fn("sqrt", (at("uA1") / s1) ** 2 + (at("uB1") / s1) ** 2)]
         pm = got.get("m", [None])[0]
-        pz = got.get("z", [None])[0]
-        if not (isinstance(pm, dict) and isinstance(pz, dict)):
-            ctx.violated(rid, fin, "required_parsets", "finalize does not request one parameter set per staterror modifier name", found=str(sorted(got)))
+        pz = got.get("y", [None])[0]
+        pz2 = got.get("z", [None])[0]
+        if not (isinstance(pm, dict) and isinstance(pz, dict) and isinstance(pz2, dict)):
+            ctx.violated(rid, fin, "required_parsets", "the builder does not request one parameter set per staterror modifier name", found=str(sorted(got)))
             return
-        sig = list(pm["sigmas"])
-        verdicts = [same_value(x, w) for x, w in zip(sig, want_m)] if len(sig) == 2 else [False]
+        sig = list(pm["sigmas"]) + list(pz2["sigmas"])
+        want_m = want_m + [fn("sqrt", (at("uA2") / at("nA2")) ** 2)]
+        verdicts = [same_value(x, w_) for x, w_ in zip(sig, want_m)] if len(sig) == 3 else [False]
         if None in verdicts:
             ctx.unrecognised(rid, fin, "staterror widths", f"widths {[str(to_poly(x)) for x in sig]} not comparable with the template")
-        elif all(verdicts) and list(pm["fixed"]) == [False, False]:
-            ctx.holds(rid, site, "delta_b = sqrt(sum over carrying samples of uncertainty_sb^2) / (sum over carrying samples of nominal_sb) on the modifier's own bins; a sample with zero nominal in a bin still contributes its uncertainty; non-carrying samples are excluded")
+        elif all(verdicts) and list(pm["fixed"]) == [False, False] and list(pz2["fixed"]) == [False]:
+            ctx.holds(rid, site, "delta_b = sqrt(sum over PARTICIPATING samples of uncertainty_sb^2) / (sum over participating samples of nominal_sb): a participating sample with zero nominal still contributes its uncertainty, one with all-zero uncertainties still contributes its nominal, samples that do not carry THIS modifier are excluded")
         else:
-            ctx.violated(rid, fin, "staterror widths", "the staterror constraint width is not the quadrature-summed relative MC uncertainty of the participating samples (checked with one participating sample having zero nominal yield in a bin and one sample not carrying the modifier)", expected=f"sigmas={[str(w) for w in want_m]} fixed=[False, False]", found=f"sigmas={[str(to_poly(x)) for x in sig]} fixed={list(pm['fixed'])}")
+            ctx.violated(rid, fin, "staterror widths", "the staterror constraint width is not the quadrature-summed relative MC uncertainty of the samples participating in THAT modifier (checked with: a participating sample with zero nominal in a bin; a participating sample with all-zero uncertainties; a sample that carries another staterror but not this one; a sample carrying none)", expected=f"sigmas={[str(w_) for w_ in want_m]} fixed=[False, False]", found=f"sigmas={[str(to_poly(x)) for x in sig]} fixed={list(pm['fixed'])}")
         if [to_poly(x) for x in pz["sigmas"]] == [Poly.const(1)] and list(pz["fixed"]) == [True]:
             ctx.holds(rid, site, "a bin without MC uncertainty gets width 1 and a fixed parameter")
         else:
-            ctx.violated(rid, fin, "staterror zero width", "a staterror bin with zero uncertainty is not held fixed with a unit width (the Gaussian constraint would be degenerate)", expected="sigmas=[1] fixed=[True]", found=f"sigmas={[str(to_poly(x)) for x in pz['sigmas']]} fixed={list(pz['fixed'])}")
+            ctx.violated(rid, fin, "staterror zero width", "a staterror bin with zero uncertainty is not held fixed with a unit width (or its width picks up samples that do not carry the modifier)", expected="sigmas=[1] fixed=[True]", found=f"sigmas={[str(to_poly(x)) for x in pz['sigmas']]} fixed={list(pz['fixed'])}")
+    except RaisedInFragment as e:
+        ctx.violated(rid, fin, "staterror builder", f"a well-formed specification is refused with {e.exc_name}")
     except (Undecided, KeyError, TypeError, ValueError, IndexError, AttributeError) as e:
-        ctx.unrecognised(rid, fin, "finalize", f"not interpretable: {type(e).__name__}: {e}")
+        ctx.unrecognised(rid, fin, "staterror builder", f"not interpretable: {type(e).__name__}: {e}")
 
 
 def _constraint_tables(ctx, rid, repo):
